@@ -116,7 +116,7 @@ func (m *Machine) keyEq(a, b Val) Bool {
 		y := b.(Ptr)
 		return CB(x.C == y.C && x.BA == y.BA)
 	case Iface:
-		return CB(ifaceEq(x, b.(Iface)))
+		return m.ifaceEqSym(x, b.(Iface))
 	case Struct:
 		y := b.(Struct)
 		r := CB(true)
